@@ -1217,7 +1217,7 @@ def main_record_case(ctx, W, desc, d, rs):
         pats = exclusion_patterns(desc, d, mol)
         exclude = pats[int(rs.randint(0, len(pats)))]
     outfile = [None, os.path.join(d, "out.gro"), "rel_out.gro"][int(rs.randint(0, 3))]
-    scale = [None, 0.5, 0.7, 1.0, 0.25][int(rs.randint(0, 5))]
+    scale = [None, 0.5, 0.7, 1.0, 0.25, 1.6, 2.0][int(rs.randint(0, 7))]      # (0, 2]: also beyond 1 (seed C20-11)
     return main_record_fixed(ctx, W, desc, d, use_auto, exclude, outfile, scale)
 
 
@@ -1692,7 +1692,7 @@ def correspondence(ctx):
                 desc["files"].append({"name": "0_" + triples[cand[0]][0], "kind": "top", "mol": ps["name"], "res": "cg"})
                 auto.append("0_" + triples[cand[0]][0])
         d = materialize(desc, os.path.join(root(), "m%d" % k))
-        scale = [None, 0.5, 0.8, 1.0][int(rs.randint(0, 4))]
+        scale = [None, 0.5, 0.8, 1.0, 1.6, 2.0][int(rs.randint(0, 6))]     # (0, 2]: also beyond 1 (seed C20-11)
         form, out_mode = combos[k % len(combos)]      # every (input path form, output mode) pair at least once
         main_real_case(ctx, W, d, desc["ref"], mol, auto, excl, out_mode, scale,
                        form, int(rs.randint(0, 10 ** 6)), 5,
